@@ -2,9 +2,11 @@ package e1
 
 import (
 	"context"
+	"database/sql/driver"
 	"encoding/json"
 	"errors"
 	"fmt"
+	"io"
 	"net"
 	"sync"
 
@@ -37,9 +39,31 @@ type Attempt struct {
 	DialRefuse  bool
 	HandlerMode string // "ok", "yield", "scribble"
 	FailAt      int    // handler returns an error for the k-th delivery of this attempt (-1 never)
+	PanicAt     int    // handler panics at the k-th delivery of this attempt (0 = never, k+1); the caller of Stream recovers (a supervisor that restarts the stream)
+	FailWith    string // which error: "" a plain one; "canceled" / "deadline" wrap the context errors (the consumer's own context, not the stream's); "eof", "badconn", "invalidconn" are the values a connection layer uses
 	BlockAt     int    // handler blocks until cancellation at the k-th delivery (-1 never)
 	BlockErr    bool   // the blocked handler returns an error when released
 	Cancel      *Trigger
+}
+
+// handlerPanic is what a scripted handler panic throws.
+type handlerPanic struct{}
+
+// HandlerError is the error a scripted handler failure returns.
+func HandlerError(kind string) error {
+	switch kind {
+	case "canceled":
+		return fmt.Errorf("sink: write batch: %w", context.Canceled)
+	case "deadline":
+		return fmt.Errorf("sink: write batch: %w", context.DeadlineExceeded)
+	case "eof":
+		return io.EOF
+	case "badconn":
+		return driver.ErrBadConn
+	case "invalidconn":
+		return mysql.ErrInvalidConn
+	}
+	return errors.New("scripted handler failure")
 }
 
 // Scenario is one closed system explored by E1.
@@ -55,6 +79,7 @@ type Scenario struct {
 	MapperMismatchAt int
 	ShortReads       bool
 	DelayBound       bool // every deviation from the default schedule costs (delay bounding)
+	ErrorFirst       bool // the caller asks Error() before it ever called Stream
 }
 
 // Delivery is one handler call.
@@ -71,21 +96,22 @@ type Delivery struct {
 
 // AttemptRec is what happened in one attempt.
 type AttemptRec struct {
-	StreamErr    string
-	StreamClass  string
-	StreamNil    bool
-	Err1, Err2   string
-	Err1Nil      bool
-	Err1Class    string
-	Err1HasOri   bool
-	ErrReturned  int // number of Error() calls that returned
-	Returned     bool
-	CancelIssued bool // the canceller fired (before Stream returned, by construction)
-	Conn         int  // connection index (-1 none)
-	Dialed       bool // the dial function returned a connection
-	HandlerErr   bool // a handler call returned an error
-	MapperErr    bool
-	ConsumedEOF  bool
+	StreamErr       string
+	StreamClass     string
+	StreamNil       bool
+	Err1, Err2      string
+	Err1Nil         bool
+	Err1Class       string
+	Err1HasOri      bool
+	ErrReturned     int // number of Error() calls that returned
+	Returned        bool
+	CancelIssued    bool // the canceller fired (before Stream returned, by construction)
+	Conn            int  // connection index (-1 none)
+	Dialed          bool // the dial function returned a connection
+	HandlerErr      bool // a handler call returned an error
+	HandlerPanicked bool // a handler call panicked and the caller of Stream recovered
+	MapperErr       bool
+	ConsumedEOF     bool
 }
 
 // Record is everything the oracles look at.
@@ -101,6 +127,10 @@ type Record struct {
 	HandlerOverlap     bool
 	HandlerAfterReturn bool
 	Final              []hx.TxSnap // deliveries re-read after everything ended
+	// PreError: 0 not asked, 1 Error() was called on the fresh Streamer before any
+	// Stream call, 2 it returned; PreErrorText is what it returned
+	PreError     int
+	PreErrorText string
 }
 
 type env struct {
@@ -230,6 +260,13 @@ func body(sc *Scenario, rec *Record) {
 	hflag := vrt.NewObj("hflag")
 	retObj := vrt.NewObj("returned")
 	inHandler := false
+	if sc.ErrorFirst {
+		rec.PreError = 1
+		if e0 := st.Error(); e0 != nil {
+			rec.PreErrorText = e0.Error()
+		}
+		rec.PreError = 2
+	}
 	for i := range sc.Attempts {
 		at := &sc.Attempts[i]
 		ar := &AttemptRec{Conn: -1}
@@ -267,8 +304,13 @@ func body(sc *Scenario, rec *Record) {
 				if at.BlockErr {
 					res = errors.New("handler gave up after cancellation")
 				}
+			case at.PanicAt > 0 && k == at.PanicAt-1:
+				ar.HandlerErr = true
+				ar.HandlerPanicked = true
+				exited++
+				panic(handlerPanic{})
 			case k == at.FailAt:
-				res = errors.New("scripted handler failure")
+				res = HandlerError(at.FailWith)
 			}
 			if at.HandlerMode == "marshal" && res == nil {
 				// a consumer that serialises what it gets (reading accessor of the
@@ -284,7 +326,7 @@ func body(sc *Scenario, rec *Record) {
 				if why := hx.AliasProbe(tx); why != "" && rec.AliasWithin == "" {
 					rec.AliasWithin = why
 				}
-				hx.Scribble(tx)
+				hx.Wipe(tx)
 			}
 			d.Accepted = res == nil
 			if res != nil {
@@ -343,7 +385,18 @@ func body(sc *Scenario, rec *Record) {
 			vrt.Yield("stream-call", func() bool { return true })
 		}
 		inStream = true
-		serr := st.Stream(ctx, handler)
+		var serr error
+		func() {
+			defer func() {
+				if p := recover(); p != nil {
+					if _, ok := p.(handlerPanic); !ok {
+						panic(p)
+					}
+					serr = errors.New("the handler panicked; the caller of Stream recovered")
+				}
+			}()
+			serr = st.Stream(ctx, handler)
+		}()
 		inStream = false
 		vrt.Yield("stream-returned", func() bool { return true })
 		ar.Returned = true
